@@ -29,6 +29,7 @@ const (
 	abViolation                    // assertion violated (recorded), stop this path
 	abStop                         // global stop
 	abDone                         // harness asked to end the path (verifEnd)
+	abRetry                        // the solver failed in the middle of the path: redo the path with a fresh solver
 )
 
 type engineAbort struct {
@@ -62,20 +63,22 @@ type violation struct {
 }
 
 type explorer struct {
-	prog       *ssa.Program
-	harnessPkg *ssa.Package
-	entry      *ssa.Function
-	redirects  map[string]*ssa.Function
-	summarize  map[string]bool
-	solverBin  []string
-	timeoutMs  int
-	fuel       int
-	maxPaths   int
-	maxViol    int
-	verbose    bool
-	traceFn    bool
-	repoPrefix string
-	knownExcl  []knownRegion
+	solverRetries    int
+	solverErrSamples []string
+	prog             *ssa.Program
+	harnessPkg       *ssa.Package
+	entry            *ssa.Function
+	redirects        map[string]*ssa.Function
+	summarize        map[string]bool
+	solverBin        []string
+	timeoutMs        int
+	fuel             int
+	maxPaths         int
+	maxViol          int
+	verbose          bool
+	traceFn          bool
+	repoPrefix       string
+	knownExcl        []knownRegion
 
 	mu          sync.Mutex
 	work        [][]int
@@ -134,6 +137,8 @@ type world struct {
 	sizes              types.Sizes
 
 	globals      map[*ssa.Global]*value
+	undo         []undoRec          // heap writes of the current path (outside initialisers), undone before the next path
+	omapSaved    map[*omap]omapSnap // maps mutated by the current path, as they were before
 	globalStored map[*ssa.Global]bool
 	poisoned     map[*ssa.Global]string
 	inited       map[*ssa.Package]bool
@@ -298,7 +303,7 @@ func (w *world) ensureInit(pkg *ssa.Package) {
 		if p := recover(); p != nil {
 			msg := fmt.Sprint(p)
 			if ab, ok := p.(engineAbort); ok {
-				if ab.kind == abStop {
+				if ab.kind == abStop || ab.kind == abRetry {
 					panic(ab)
 				}
 				msg = ab.msg
@@ -402,6 +407,7 @@ func (w *world) feasible(t *Term) satResult {
 	w.flushPC()
 	t0 := time.Now()
 	r := w.sv.check(t)
+	w.solverGuard()
 	if r == rSat {
 		w.sv.endModel(t != nil)
 	}
@@ -409,6 +415,15 @@ func (w *world) feasible(t *Term) satResult {
 		fmt.Fprintf(os.Stderr, "slow query %.1fs result=%v size=%d pc=%d: %.300s\n", d.Seconds(), r, t.size, len(w.pc), w.sv.expr(t))
 	}
 	return r
+}
+
+// solverGuard aborts the current attempt at a path when the solver reported an
+// error or died: whatever it answered since cannot be trusted and its
+// assertion stack is gone. runPath redoes the path from its decision prefix.
+func (w *world) solverGuard() {
+	if w.sv.failed {
+		panic(engineAbort{kind: abRetry, msg: w.sv.lastErr})
+	}
 }
 
 func (w *world) replaying() bool { return w.pos < len(w.decisions) }
@@ -762,8 +777,10 @@ func (w *world) reportViolation(kind, id, msg string, extra *Term) {
 	w.flushPC()
 	var m map[string]*Term
 	r := w.sv.check(extra)
+	w.solverGuard()
 	if r == rSat {
 		m = w.sv.model(w.tc, w.inputVars())
+		w.solverGuard()
 		w.sv.endModel(extra != nil)
 	} else {
 		m = map[string]*Term{}
@@ -867,10 +884,12 @@ func (w *world) reachMark(id string) {
 	// first time: demand a genuine model of the path condition
 	w.flushPC()
 	r := w.sv.check(nil)
+	w.solverGuard()
 	if r != rSat {
 		return
 	}
 	m := w.sv.model(w.tc, w.inputVars())
+	w.solverGuard()
 	ins := w.modelInputs(m)
 	w.ex.mu.Lock()
 	w.ex.reach[id]++
@@ -883,7 +902,95 @@ func (w *world) reachMark(id string) {
 // ---------------------------------------------------------------------------
 // running paths
 
+// Heap isolation between paths. Package-level state of the code under test
+// (caches, interning tables, counters) lives in the world and outlives a path;
+// what one path wrote - possibly values that depend on its symbolic inputs -
+// must not be seen by the next. Every store, copy, atomic update and map
+// mutation performed outside a package initialiser is journalled and rolled
+// back before the next path starts. Writes of (lazily run) initialisers stay.
+type undoRec struct {
+	addr *value
+	old  value
+}
+
+type omapSnap struct {
+	entries []oentry
+	index   map[any]int
+	symIdx  []int
+	n       int
+}
+
+func (w *world) logWrite(addr *value) {
+	if w.inInit == 0 {
+		w.undo = append(w.undo, undoRec{addr, *addr})
+	}
+}
+
+func (w *world) logMap(m *omap) {
+	if w.inInit != 0 || m == nil {
+		return
+	}
+	if _, ok := w.omapSaved[m]; ok {
+		return
+	}
+	sn := omapSnap{n: m.n, symIdx: append([]int(nil), m.symIdx...), index: make(map[any]int, len(m.index))}
+	sn.entries = make([]oentry, len(m.entries))
+	for i, e := range m.entries {
+		sn.entries[i] = *e
+	}
+	for k, v := range m.index {
+		sn.index[k] = v
+	}
+	if w.omapSaved == nil {
+		w.omapSaved = make(map[*omap]omapSnap)
+	}
+	w.omapSaved[m] = sn
+}
+
+func (w *world) rollback() {
+	for i := len(w.undo) - 1; i >= 0; i-- {
+		*w.undo[i].addr = w.undo[i].old
+		w.undo[i] = undoRec{}
+	}
+	w.undo = w.undo[:0]
+	for m, sn := range w.omapSaved {
+		m.entries = make([]*oentry, len(sn.entries))
+		for i := range sn.entries {
+			e := sn.entries[i]
+			m.entries[i] = &e
+		}
+		m.index, m.symIdx, m.n = sn.index, sn.symIdx, sn.n
+	}
+	w.omapSaved = nil
+}
+
+// storeLogged is store with journalling of every overwritten cell.
+func (w *world) storeLogged(T types.Type, addr *value, v value) {
+	if w.inInit != 0 {
+		store(T, addr, v)
+		return
+	}
+	switch T := T.Underlying().(type) {
+	case *types.Struct:
+		lhs := (*addr).(structure)
+		rhs := v.(structure)
+		for i := range lhs {
+			w.storeLogged(T.Field(i).Type(), &lhs[i], rhs[i])
+		}
+	case *types.Array:
+		lhs := (*addr).(array)
+		rhs := v.(array)
+		for i := range lhs {
+			w.storeLogged(T.Elem(), &lhs[i], rhs[i])
+		}
+	default:
+		w.undo = append(w.undo, undoRec{addr, *addr})
+		*addr = v
+	}
+}
+
 func (w *world) resetPath(prefix []int) {
+	w.rollback()
 	w.decisions = prefix
 	w.pos = 0
 	w.pc = w.pc[:0]
@@ -905,10 +1012,46 @@ func (w *world) resetPath(prefix []int) {
 }
 
 func (w *world) runPath(prefix []int) {
+	for attempt := 0; ; attempt++ {
+		redo := w.runPathOnce(prefix)
+		if redo == nil {
+			return
+		}
+		msg := w.sv.lastErr
+		w.sv.close()
+		w.sv.failed, w.sv.lastErr, w.sv.sawError = false, "", false
+		if err := w.sv.start(); err != nil || attempt >= 3 {
+			w.ex.mu.Lock()
+			w.ex.paths++
+			w.ex.unsupp["solver failed repeatedly on one path: "+msg]++
+			w.ex.mu.Unlock()
+			return
+		}
+		w.ex.mu.Lock()
+		w.ex.solverRetries++
+		if len(w.ex.solverErrSamples) < 3 {
+			w.ex.solverErrSamples = append(w.ex.solverErrSamples, msg)
+		}
+		w.ex.mu.Unlock()
+		prefix = redo
+	}
+}
+
+// runPathOnce runs one attempt; a non-nil result is the decision prefix from
+// which the path has to be redone after a solver failure (the decisions taken
+// so far were made on sound answers; alternatives already queued stay queued).
+func (w *world) runPathOnce(prefix []int) (redo []int) {
 	w.resetPath(prefix)
 	ex := w.ex
 	defer func() {
 		p := recover()
+		if ab, ok := p.(engineAbort); ok && ab.kind == abRetry {
+			redo = append([]int{}, w.decisions...)
+			if redo == nil {
+				redo = []int{}
+			}
+			return
+		}
 		ex.mu.Lock()
 		ex.paths++
 		ex.mu.Unlock()
@@ -951,6 +1094,7 @@ func (w *world) runPath(prefix []int) {
 	w.ensureInit(ex.harnessPkg)
 	w.callSSA(nil, 0, ex.entry, nil, nil)
 	w.recordObl("no-panic", func(o *oblStat) { o.Checked++; o.Discharged++ })
+	return nil
 }
 
 func (ex *explorer) run(workers int) error {
